@@ -1,5 +1,6 @@
 """C14 -- preprocessor directives are kept as nodes and do not disturb the Fortran."""
 import random
+import re
 
 import common
 import gen
@@ -121,7 +122,10 @@ def check_one(arg):
                 fails.append(("tree_differs", "strip_directives(tree(P+D)) != tree(P) [%s]" % feats, rep))
     out_lines = [l for l in str(o.tree).split("\n") if not l.lstrip().startswith("#")]
     ref_lines = str(refc.tree).split("\n") if refc.kind == "tree" else None
-    if ref_lines is not None and [l.strip() for l in out_lines] != [l.strip() for l in ref_lines]:
+    # indentation, and with it the padding after a statement label, follows the position of a statement in its
+    # block: compared modulo the blanks after a label
+    lab = lambda l: re.sub(r"^(\d+)\s+", r"\1 ", l.strip())   # noqa
+    if ref_lines is not None and [lab(l) for l in out_lines] != [lab(l) for l in ref_lines]:
         fails.append(("text_differs", "regenerated Fortran differs once directive lines are removed [%s]" % feats, rep))
     return fails
 
